@@ -1,9 +1,633 @@
 ------------------------------ MODULE CmdZSet ------------------------------
-(* placeholder: semantics of the zset commands (to be written) *)
+(***************************************************************************)
+(* Semantics of the 25 sorted-set commands.                                *)
+(* internal/modules/sorted_set/{commands,sorted_set,utils,key_funcs}.go    *)
+(*                                                                         *)
+(* A sorted set is a function  member bytes |-> score, a score being       *)
+(* [q |-> quarters, inf |-> 0] or [q |-> 0, inf |-> +1 / -1].  "The order" *)
+(* of a sorted set is by score, then by member bytes (ZAsc); the reverse   *)
+(* order is its exact mirror (ZDesc).  Replies built from Go map iteration *)
+(* (algebra commands, pops, ZRANDMEMBER) are bags; ranges and ranks follow *)
+(* the order.  Reference decisions ("as-code") are commented where they    *)
+(* are taken and collected in NOTES.md.                                    *)
+(*                                                                         *)
+(* Reply shapes (as-code): member lists are arrays of one-element arrays   *)
+(* [[m], ...]; with scores arrays of pairs [[m, score], ...]; a score is   *)
+(* printed by strconv.FormatFloat(f, 'f', -1, 64) ("1.5", "-2", "+Inf").   *)
+(***************************************************************************)
 EXTENDS CmdBase
 
-ZSetOps == {}
-ExecZSet(C, a, g) == Skip(C)
-ZSetDevs(a) == {}
+ZSetOps == {"ZADD", "ZCARD", "ZCOUNT", "ZDIFF", "ZDIFFSTORE", "ZINCRBY", "ZINTER", "ZINTERSTORE",
+            "ZLEXCOUNT", "ZMPOP", "ZMSCORE", "ZPOPMAX", "ZPOPMIN", "ZRANDMEMBER", "ZRANGE",
+            "ZRANGESTORE", "ZRANK", "ZREVRANK", "ZREM", "ZREMRANGEBYLEX", "ZREMRANGEBYRANK",
+            "ZREMRANGEBYSCORE", "ZSCORE", "ZUNION", "ZUNIONSTORE"}
+
+----------------------------------------------------------------------------
+\* scores
+
+ZFin(q)    == [q |-> q, inf |-> 0]
+ZInfS(sg)  == [q |-> 0, inf |-> sg]
+ZNaN       == [q |-> 0, inf |-> 2]       \* never stored: the step that would produce it is skipped
+
+ZLt(x, y) == IF x.inf # y.inf THEN x.inf < y.inf ELSE (x.inf = 0 /\ x.q < y.q)
+ZLe(x, y) == ~ZLt(y, x)
+
+ZSgn(n) == IF n < 0 THEN -1 ELSE IF n > 0 THEN 1 ELSE 0
+
+\* float addition; +inf + -inf is NaN
+ZPlus(x, y) ==
+    IF x.inf = 2 \/ y.inf = 2 THEN ZNaN
+    ELSE IF x.inf # 0 /\ y.inf # 0 THEN (IF x.inf = y.inf THEN x ELSE ZNaN)
+    ELSE IF x.inf # 0 THEN x
+    ELSE IF y.inf # 0 THEN y
+    ELSE IF Abs(x.q) > 500000000 \/ Abs(y.q) > 500000000 THEN ZNaN
+    ELSE ZFin(x.q + y.q)
+
+\* weight * score, the weight being a double as well (quarter units or +-inf); inf * 0 is NaN.
+\* A product that is a *negative zero* in IEEE arithmetic (printed "-0" but indistinguishable in
+\* the projected state), that is not a multiple of 1/4, or that is too large for TLC's integers is
+\* reported as NaN too, so that the step is skipped rather than judged.
+ZTimes(w, x) ==
+    IF w.inf # 0 THEN (IF x.inf = 0 /\ x.q = 0 THEN ZNaN ELSE ZInfS(w.inf * (IF x.inf # 0 THEN x.inf ELSE ZSgn(x.q))))
+    ELSE IF x.inf # 0 THEN (IF w.q = 0 THEN ZNaN ELSE ZInfS(ZSgn(w.q) * x.inf))
+    ELSE IF (w.q < 0 /\ x.q = 0) \/ (w.q = 0 /\ x.q < 0) THEN ZNaN
+    ELSE IF Abs(w.q) > 1000 \/ Abs(x.q) > 1000000 THEN ZNaN
+    ELSE IF (w.q * x.q) % 4 # 0 THEN ZNaN
+    ELSE ZFin((w.q * x.q) \div 4)
+
+\* strconv.FormatFloat(f, 'f', -1, 64)
+ZScoreBytes(x) == IF x.inf # 0 THEN InfBytes(x.inf) ELSE FmtQ(x.q)
+
+\* fmt.Sprintf("%f", f): six decimals  (reply of ZADD ... INCR, as-code)
+ZFmt6(x) ==
+    IF x.inf # 0 THEN InfBytes(x.inf)
+    ELSE LET m    == Abs(x.q)
+             frac == CASE m % 4 = 0 -> <<48, 48, 48, 48, 48, 48>>
+                       [] m % 4 = 1 -> <<50, 53, 48, 48, 48, 48>>
+                       [] m % 4 = 2 -> <<53, 48, 48, 48, 48, 48>>
+                       [] m % 4 = 3 -> <<55, 53, 48, 48, 48, 48>>
+         IN (IF x.q < 0 THEN <<cMinus>> ELSE <<>>) \o DecNat(m \div 4) \o <<cDot>> \o frac
+
+\* a token where a double is expected (internal.AdaptType / strconv.ParseFloat); generators only
+\* send exponent-free literals and "+inf" / "-inf"
+ZNumSkip(t) == IsBytesT(t) /\ ~IsIntT(t) /\ ~IsQT(t) /\ Unmodelled(t.b)
+ZNumOk(t)   == IsIntT(t) \/ IsQT(t) \/ (IsBytesT(t) /\ IsLooseNum(t.b) /\ LooseNum(t.b).ok)
+ZNum(t)     == CASE IsIntT(t) -> ZFin(4 * t.i)
+                 [] IsQT(t)   -> (IF t.inf # 0 THEN ZInfS(t.inf) ELSE ZFin(t.q))
+                 [] OTHER     -> ZFin(LooseNum(t.b).q)
+
+\* a token where an integer is expected (strconv.Atoi)
+ZIntOk(t) == IsIntT(t) \/ (IsQT(t) /\ t.inf = 0 /\ t.q % 4 = 0) \/ (~IsQT(t) /\ IsBytesT(t) /\ IsParseInt(t.b))
+ZIntV(t)  == CASE IsIntT(t) -> t.i [] IsQT(t) -> t.q \div 4 [] OTHER -> ParseIntVal(t.b)
+
+----------------------------------------------------------------------------
+\* sorted sets
+
+ZEmpty == [m \in {} |-> ZFin(0)]
+ZPutM(z, m, x) == [y \in (DOMAIN z) \cup {m} |-> IF y = m THEN x ELSE z[y]]
+ZKeep(z, ms)   == [y \in (DOMAIN z) \cap ms |-> z[y]]
+ZDrop(z, ms)   == [y \in (DOMAIN z) \ ms |-> z[y]]
+ZCardOf(z)     == Cardinality(DOMAIN z)
+
+ZReverse(s) == [i \in 1..Len(s) |-> s[Len(s) + 1 - i]]
+ZMin2(x, y) == IF x < y THEN x ELSE y
+ZMax2(x, y) == IF x > y THEN x ELSE y
+
+\* SubSeq that tolerates any bounds (1-based, inclusive)
+ZSlice(s, lo, hi) == IF lo > hi \/ lo > Len(s) \/ hi < 1 THEN <<>> ELSE SubSeq(s, ZMax2(lo, 1), ZMin2(hi, Len(s)))
+
+\* the elements of ms as the sequence sorted by the strict total order Less
+ZSortBy(ms, Less(_, _)) ==
+    [i \in 1..Cardinality(ms) |-> CHOOSE m \in ms : Cardinality({y \in ms : Less(y, m)}) = i - 1]
+
+ZBefore(z, m1, m2) == ZLt(z[m1], z[m2]) \/ (z[m1] = z[m2] /\ LexLess(m1, m2))
+ZAsc(z)  == ZSortBy(DOMAIN z, LAMBDA m1, m2 : ZBefore(z, m1, m2))
+ZDesc(z) == ZReverse(ZAsc(z))
+
+ZSeqSet(s) == {s[i] : i \in DOMAIN s}
+ZAnyOrder(ms) == ZSortBy(ms, LexLess)                  \* some enumeration, for bag replies
+
+ZIsZ(C, k)   == Live(C, k) /\ ValOf(C, k).k = "zset"
+ZWrong(C, k) == Live(C, k) /\ ValOf(C, k).k # "zset"
+ZOf(C, k)    == IF ZIsZ(C, k) THEN ValOf(C, k).z ELSE ZEmpty     \* an absent key is the empty sorted set
+
+ZAllSame(z) == \A m1, m2 \in DOMAIN z : z[m1] = z[m2]
+
+\* replies
+ZItem(z, m, ws)    == IF ws THEN RArr(<<RStr(m), RStr(ZScoreBytes(z[m]))>>) ELSE RArr(<<RStr(m)>>)
+ZListReply(z, s, ws) == RArr([i \in 1..Len(s) |-> ZItem(z, s[i], ws)])
+ZBagReply(z, ws)   == LET s == ZAnyOrder(DOMAIN z) IN RBag([i \in 1..Len(s) |-> ZItem(z, s[i], ws)])
+ZNoMatch           == [t |-> "illegal"]                  \* a reply nothing the server sends can equal
+
+ZHasKw(toks, w)  == \E i \in DOMAIN toks : KW(toks[i]) = w
+ZFirstKw(toks, ws) == IF \E i \in DOMAIN toks : KW(toks[i]) \in ws
+                      THEN CHOOSE i \in DOMAIN toks : KW(toks[i]) \in ws /\ \A j \in 1..(i - 1) : ~(KW(toks[j]) \in ws)
+                      ELSE 0
+
+(***************************************************************************)
+(* Lexicographic comparison of members.  The reference is bytes.Compare.   *)
+(* The implementation (internal.CompareLex, internal/utils.go) first       *)
+(* decides by *substring containment* ("ab" contains "b", hence "ab" > "b")*)
+(* - deviation ZLexSubstr.  That relation is not transitive in general;    *)
+(* where a sort by it has no determined outcome the step is skipped.       *)
+(***************************************************************************)
+ZContains(big, small) == \E i \in 0..(Len(big) - Len(small)) : SubSeq(big, i + 1, i + Len(small)) = small
+ZCodeLexLess(x, y) == x # y /\ ~ZContains(x, y) /\ (ZContains(y, x) \/ LexLess(x, y))
+ZLexLess(C, x, y)  == IF Dev(C, "ZLexSubstr") THEN ZCodeLexLess(x, y) ELSE LexLess(x, y)
+ZLexIn(C, m, lo, hi) == ~ZLexLess(C, m, lo) /\ ~ZLexLess(C, hi, m)       \* both bounds inclusive (as-code)
+ZLexSortable(C, ms) == ~Dev(C, "ZLexSubstr") \/ \A x, y, w \in ms : (ZCodeLexLess(x, y) /\ ZCodeLexLess(y, w)) => ZCodeLexLess(x, w)
+
+----------------------------------------------------------------------------
+\* ZADD key [NX | XX] [GT | LT] [CH] [INCR] score member [score member ...]
+\* The options are the tokens before the first token that parses as a number (as-code); the last
+\* of NX/XX and the last of GT/LT win; NX together with GT/LT is an error.
+
+ZNoOpt == [pol |-> "", cmp |-> "", ch |-> FALSE, incr |-> FALSE, err |-> FALSE]
+
+RECURSIVE ZAddOpts(_, _, _)
+ZAddOpts(toks, np, o) ==
+    IF toks = <<>> \/ o.err THEN o
+    ELSE LET w == KW(toks[1])   rest == Tail(toks) IN
+         CASE w \in {"NX", "XX"} -> IF w = "NX" /\ o.cmp # "" THEN [o EXCEPT !.err = TRUE]
+                                    ELSE ZAddOpts(rest, np, [o EXCEPT !.pol = w])
+           [] w \in {"GT", "LT"} -> IF o.pol = "NX" THEN [o EXCEPT !.err = TRUE]
+                                    ELSE ZAddOpts(rest, np, [o EXCEPT !.cmp = w])
+           [] w = "CH"           -> ZAddOpts(rest, np, [o EXCEPT !.ch = TRUE])
+           [] w = "INCR"         -> IF np > 1 THEN [o EXCEPT !.err = TRUE]
+                                    ELSE ZAddOpts(rest, np, [o EXCEPT !.incr = TRUE])
+           [] OTHER              -> [o EXCEPT !.err = TRUE]
+
+\* may an existing score old be replaced by new under GT / LT ?
+ZCmpAllows(cmp, old, new) == CASE cmp = "GT" -> ZLt(old, new) [] cmp = "LT" -> ZLt(new, old) [] OTHER -> TRUE
+
+\* pairs are applied one after the other (a member named twice is first added, then updated).
+\* added / changed: members added / existing members whose score changed.  code: the number the
+\* implementation reports (deviation ZAddCount): without NX/XX every existing member *given* a
+\* score different from its current one is counted, CH or not, whatever GT/LT then decide; with
+\* XX CH every existing member named is counted.
+RECURSIVE ZAddFold(_, _, _)
+ZAddFold(acc, prs, o) ==
+    IF prs = <<>> THEN acc
+    ELSE LET x == ZNum(prs[1])   m == TokBytes(prs[2])   z == acc.z   rest == SubSeq(prs, 3, Len(prs)) IN
+         IF m \in DOMAIN z
+         THEN LET cc == CASE o.pol = "XX" -> IF o.ch THEN 1 ELSE 0
+                          [] o.pol = "NX" -> 0
+                          [] OTHER        -> IF z[m] # x THEN 1 ELSE 0
+                  acc1 == [acc EXCEPT !.code = @ + cc]
+              IN IF o.pol = "NX" \/ ~ZCmpAllows(o.cmp, z[m], x) \/ z[m] = x THEN ZAddFold(acc1, rest, o)
+                 ELSE ZAddFold([acc1 EXCEPT !.z = ZPutM(z, m, x), !.changed = @ + 1], rest, o)
+         ELSE IF o.pol = "XX" THEN ZAddFold(acc, rest, o)
+              ELSE ZAddFold([acc EXCEPT !.z = ZPutM(z, m, x), !.added = @ + 1, !.code = @ + 1], rest, o)
+
+\* the key is created only when something was added to it
+ZStore(C, k, z) == IF ~Live(C, k) /\ DOMAIN z = {} THEN C.S ELSE Write(C, k, VZSet(z))
+
+XZAdd(C, a) ==
+    IF Len(a) < 4 THEN Fail(C)
+    ELSE IF \E i \in 3..Len(a) : ZNumSkip(a[i]) THEN Skip(C)
+    ELSE LET k    == a[2].s
+             rest == SubSeq(a, 3, Len(a))
+             nums == {i \in 1..Len(rest) : ZNumOk(rest[i])}
+             p    == IF nums = {} THEN 0 ELSE CHOOSE i \in nums : \A j \in nums : i <= j
+             prs  == IF p = 0 THEN <<>> ELSE SubSeq(rest, p, Len(rest))
+             np   == Len(prs) \div 2
+         IN IF p = 0 \/ Len(prs) % 2 # 0 THEN Fail(C)
+            ELSE IF \E i \in 1..np : ~ZNumOk(prs[2 * i - 1]) THEN Fail(C)      \* a score that is not a number
+            ELSE LET o == ZAddOpts(SubSeq(rest, 1, p - 1), np, ZNoOpt) IN
+                 IF o.err THEN Fail(C)
+                 ELSE IF ZWrong(C, k) THEN Fail(C)
+                 ELSE LET z == ZOf(C, k) IN
+                      IF o.incr
+                      THEN LET x == ZNum(prs[1])   m == TokBytes(prs[2]) IN
+                           IF ~(m \in DOMAIN z)
+                           THEN IF o.pol = "XX" THEN Res(C.S, RNil)
+                                ELSE Res(ZStore(C, k, ZPutM(z, m, x)), RStr(ZFmt6(x)))
+                           ELSE IF o.pol = "NX" THEN Res(C.S, RNil)
+                           ELSE IF z[m].inf # 0 THEN Fail(C)               \* as-code: an infinite score cannot be incremented
+                           ELSE LET new == ZPlus(z[m], x) IN
+                                IF new.inf = 2 THEN Skip(C)
+                                ELSE IF ~ZCmpAllows(o.cmp, z[m], new) THEN Res(C.S, RNil)
+                                ELSE Res(ZStore(C, k, ZPutM(z, m, new)), RStr(ZFmt6(new)))
+                      ELSE LET r == ZAddFold([z |-> z, added |-> 0, changed |-> 0, code |-> 0], prs, o) IN
+                           Res(ZStore(C, k, r.z), RInt(IF Dev(C, "ZAddCount") THEN r.code
+                                                       ELSE IF o.ch THEN r.added + r.changed ELSE r.added))
+
+----------------------------------------------------------------------------
+\* ZCARD / ZCOUNT / ZLEXCOUNT / ZSCORE / ZMSCORE / ZRANK / ZREVRANK
+
+XZCard(C, a) ==
+    IF Len(a) # 2 THEN Fail(C)
+    ELSE IF ZWrong(C, a[2].s) THEN Fail(C)
+    ELSE Res(C.S, RInt(ZCardOf(ZOf(C, a[2].s))))
+
+\* ZCOUNT key min max : both bounds inclusive doubles (no "(" syntax; as-code)
+XZCount(C, a) ==
+    IF Len(a) # 4 THEN Fail(C)
+    ELSE IF ZNumSkip(a[3]) \/ ZNumSkip(a[4]) THEN Skip(C)
+    ELSE IF ~ZNumOk(a[3]) \/ ~ZNumOk(a[4]) THEN Fail(C)
+    ELSE IF ZWrong(C, a[2].s) THEN Fail(C)
+    ELSE LET z == ZOf(C, a[2].s)   lo == ZNum(a[3])   hi == ZNum(a[4]) IN
+         Res(C.S, RInt(Cardinality({m \in DOMAIN z : ZLe(lo, z[m]) /\ ZLe(z[m], hi)})))
+
+\* ZLEXCOUNT key min max : min and max are plain member strings, both inclusive (as-code);
+\* 0 unless all members have the same score (docs)
+XZLexCount(C, a) ==
+    IF Len(a) # 4 THEN Fail(C)
+    ELSE IF ZWrong(C, a[2].s) THEN Fail(C)
+    ELSE LET z == ZOf(C, a[2].s)   lo == TokBytes(a[3])   hi == TokBytes(a[4]) IN
+         IF ~ZAllSame(z) THEN Res(C.S, RInt(0))
+         ELSE Res(C.S, RInt(Cardinality({m \in DOMAIN z : ZLexIn(C, m, lo, hi)})))
+
+XZScore(C, a) ==
+    IF Len(a) # 3 THEN Fail(C)
+    ELSE IF ZWrong(C, a[2].s) THEN Fail(C)
+    ELSE LET z == ZOf(C, a[2].s)   m == TokBytes(a[3]) IN
+         Res(C.S, IF m \in DOMAIN z THEN RStr(ZScoreBytes(z[m])) ELSE RNil)
+
+\* as-code: an absent key yields the empty array, not one nil per member
+XZMScore(C, a) ==
+    IF Len(a) < 3 THEN Fail(C)
+    ELSE IF ~Live(C, a[2].s) THEN Res(C.S, RArr(<<>>))
+    ELSE IF ZWrong(C, a[2].s) THEN Fail(C)
+    ELSE LET z == ZOf(C, a[2].s) IN
+         Res(C.S, RArr([i \in 1..(Len(a) - 2) |->
+                          LET m == TokBytes(a[i + 2]) IN
+                          IF m \in DOMAIN z THEN RStr(ZScoreBytes(z[m])) ELSE RNil]))
+
+\* ZRANK / ZREVRANK key member [WITHSCORES] : [rank] or [rank, score]; a fourth token other than
+\* WITHSCORES is ignored (as-code)
+XZRank(C, a, rev) ==
+    IF Len(a) < 3 \/ Len(a) > 4 THEN Fail(C)
+    ELSE IF ZWrong(C, a[2].s) THEN Fail(C)
+    ELSE LET z  == ZOf(C, a[2].s)
+             m  == TokBytes(a[3])
+             ws == Len(a) = 4 /\ KW(a[4]) = "WITHSCORES"
+             s  == IF rev THEN ZDesc(z) ELSE ZAsc(z)
+         IN IF ~(m \in DOMAIN z) THEN Res(C.S, RNil)
+            ELSE LET r == (CHOOSE i \in DOMAIN s : s[i] = m) - 1 IN
+                 Res(C.S, IF ws THEN RArr(<<RInt(r), RStr(ZScoreBytes(z[m]))>>) ELSE RArr(<<RInt(r)>>))
+
+----------------------------------------------------------------------------
+\* ZINCRBY key increment member
+
+XZIncrBy(C, a) ==
+    IF Len(a) # 4 THEN Fail(C)
+    ELSE IF ZNumSkip(a[3]) THEN Skip(C)
+    ELSE IF ~ZNumOk(a[3]) THEN Fail(C)
+    ELSE IF ZWrong(C, a[2].s) THEN Fail(C)
+    ELSE LET k == a[2].s   z == ZOf(C, k)   x == ZNum(a[3])   m == TokBytes(a[4]) IN
+         IF m \in DOMAIN z /\ z[m].inf # 0 THEN Fail(C)                  \* as-code
+         ELSE LET new == IF m \in DOMAIN z THEN ZPlus(z[m], x) ELSE x IN
+              IF new.inf = 2 THEN Skip(C)
+              ELSE Res(Write(C, k, VZSet(ZPutM(z, m, new))), RStr(ZScoreBytes(new)))
+
+----------------------------------------------------------------------------
+\* removals: ZREM, ZREMRANGEBYSCORE, ZREMRANGEBYRANK, ZREMRANGEBYLEX, ZPOPMIN, ZPOPMAX, ZMPOP
+\* as-code: a sorted set that loses its last member stays as an empty sorted set
+
+ZRemove(C, k, ms) == IF ~Live(C, k) THEN C.S ELSE Write(C, k, VZSet(ZDrop(ValOf(C, k).z, ms)))
+
+XZRem(C, a) ==
+    IF Len(a) < 3 THEN Fail(C)
+    ELSE IF ZWrong(C, a[2].s) THEN Fail(C)
+    ELSE LET z == ZOf(C, a[2].s)   ms == {TokBytes(a[i]) : i \in 3..Len(a)} \cap DOMAIN z IN
+         Res(ZRemove(C, a[2].s, ms), RInt(Cardinality(ms)))
+
+XZRemRangeByScore(C, a) ==
+    IF Len(a) # 4 THEN Fail(C)
+    ELSE IF ZNumSkip(a[3]) \/ ZNumSkip(a[4]) THEN Skip(C)
+    ELSE IF ~ZNumOk(a[3]) \/ ~ZNumOk(a[4]) THEN Fail(C)
+    ELSE IF ZWrong(C, a[2].s) THEN Fail(C)
+    ELSE LET z == ZOf(C, a[2].s)   lo == ZNum(a[3])   hi == ZNum(a[4])
+             ms == {m \in DOMAIN z : ZLe(lo, z[m]) /\ ZLe(z[m], hi)}
+         IN Res(ZRemove(C, a[2].s, ms), RInt(Cardinality(ms)))
+
+\* as-code: ranks outside 0..card-1 (after adding card to negative ones) are an error; start > stop
+\* denotes the same range as stop..start
+XZRemRangeByRank(C, a) ==
+    IF Len(a) # 4 THEN Fail(C)
+    ELSE IF ~ZIntOk(a[3]) \/ ~ZIntOk(a[4]) THEN Fail(C)
+    ELSE IF ~Live(C, a[2].s) THEN Res(C.S, RInt(0))
+    ELSE IF ZWrong(C, a[2].s) THEN Fail(C)
+    ELSE LET z  == ZOf(C, a[2].s)
+             n  == ZCardOf(z)
+             st == IF ZIntV(a[3]) < 0 THEN ZIntV(a[3]) + n ELSE ZIntV(a[3])
+             sp == IF ZIntV(a[4]) < 0 THEN ZIntV(a[4]) + n ELSE ZIntV(a[4])
+         IN IF st < 0 \/ st > n - 1 \/ sp < 0 \/ sp > n - 1 THEN Fail(C)
+            ELSE LET ms == ZSeqSet(ZSlice(ZAsc(z), ZMin2(st, sp) + 1, ZMax2(st, sp) + 1)) IN
+                 Res(ZRemove(C, a[2].s, ms), RInt(Cardinality(ms)))
+
+XZRemRangeByLex(C, a) ==
+    IF Len(a) # 4 THEN Fail(C)
+    ELSE IF ZWrong(C, a[2].s) THEN Fail(C)
+    ELSE LET z == ZOf(C, a[2].s)   lo == TokBytes(a[3])   hi == TokBytes(a[4])
+             ms == IF ZAllSame(z) THEN {m \in DOMAIN z : ZLexIn(C, m, lo, hi)} ELSE {}
+         IN Res(ZRemove(C, a[2].s, ms), RInt(Cardinality(ms)))
+
+\* the count members with the lowest (MIN) / highest (MAX) scores, ties by member
+ZPopped(z, count, max) == ZSeqSet(ZSlice(IF max THEN ZDesc(z) ELSE ZAsc(z), 1, count))
+
+ZPopRes(C, k, z, count, max) ==
+    LET ms == ZPopped(z, count, max) IN Res(ZRemove(C, k, ms), ZBagReply(ZKeep(z, ms), TRUE))
+
+\* ZPOPMIN / ZPOPMAX key [count] : a count <= 0 stands for the default 1 (documented in the API)
+XZPop(C, a, max) ==
+    IF Len(a) < 2 \/ Len(a) > 3 THEN Fail(C)
+    ELSE IF Len(a) = 3 /\ ~ZIntOk(a[3]) THEN Fail(C)
+    ELSE IF ZWrong(C, a[2].s) THEN Fail(C)
+    ELSE LET count == IF Len(a) = 3 /\ ZIntV(a[3]) > 0 THEN ZIntV(a[3]) ELSE 1 IN
+         ZPopRes(C, a[2].s, ZOf(C, a[2].s), count, max)
+
+\* ZMPOP key [key ...] [MIN | MAX] [COUNT count] : pops from the first key holding a non-empty
+\* sorted set; MIN is the default; the reply is the list of popped pairs (as-code).
+\* A key of another type is an error (C01); the implementation skips it: deviation
+\* ZMPopSkipsWrongType.
+RECURSIVE ZMPopKeys(_, _, _, _)
+ZMPopKeys(C, ks, count, max) ==
+    IF ks = <<>> THEN Res(C.S, RArr(<<>>))
+    ELSE LET k == ks[1].s IN
+         IF ZWrong(C, k) /\ ~Dev(C, "ZMPopSkipsWrongType") THEN Fail(C)
+         ELSE IF ZIsZ(C, k) /\ DOMAIN ValOf(C, k).z # {} THEN ZPopRes(C, k, ValOf(C, k).z, count, max)
+         ELSE ZMPopKeys(C, Tail(ks), count, max)
+
+XZMPop(C, a) ==
+    IF Len(a) < 2 THEN Fail(C)
+    ELSE LET mods == {"MIN", "MAX", "COUNT"}
+             e    == ZFirstKw(a, mods)
+             ks   == IF e = 0 THEN Tail(a) ELSE SubSeq(a, 2, e - 1)
+             ci   == ZFirstKw(a, {"COUNT"})
+             pi   == ZFirstKw(a, {"MIN", "MAX"})
+         IN IF e = 2 THEN Fail(C)
+            ELSE IF ci # 0 /\ (ci = Len(a) \/ ~ZIntOk(a[ci + 1]) \/ ZIntV(a[ci + 1]) <= 0) THEN Fail(C)
+            ELSE ZMPopKeys(C, ks, IF ci = 0 THEN 1 ELSE ZIntV(a[ci + 1]), pi # 0 /\ KW(a[pi]) = "MAX")
+
+----------------------------------------------------------------------------
+\* ZRANDMEMBER key [count [WITHSCORES]] : the choice is read off the logged reply g.
+\* count 0 stands for the default 1; |count| >= card returns every member once (as-code, API doc);
+\* otherwise count > 0 distinct members, count < 0 |count| members with repetitions allowed.
+\* as-code: an absent key replies nil.
+
+XZRandMember(C, a, g) ==
+    IF Len(a) < 2 \/ Len(a) > 4 THEN Fail(C)
+    ELSE IF Len(a) >= 3 /\ ~ZIntOk(a[3]) THEN Fail(C)
+    ELSE IF Len(a) = 4 /\ KW(a[4]) # "WITHSCORES" THEN Fail(C)
+    ELSE IF ~Live(C, a[2].s) THEN Res(C.S, RNil)
+    ELSE IF ZWrong(C, a[2].s) THEN Fail(C)
+    ELSE LET z     == ZOf(C, a[2].s)
+             ws    == Len(a) = 4
+             count == IF Len(a) >= 3 /\ ZIntV(a[3]) # 0 THEN ZIntV(a[3]) ELSE 1
+             n     == Abs(count)
+         IN IF n >= ZCardOf(z) THEN Res(C.S, ZBagReply(z, ws))
+            ELSE LET ok ==
+                     /\ g.t = "arr" /\ Len(g.a) = n
+                     /\ \A i \in 1..n :
+                           /\ g.a[i].t = "arr" /\ Len(g.a[i].a) = (IF ws THEN 2 ELSE 1)
+                           /\ g.a[i].a[1].t = "bulk" /\ g.a[i].a[1].b \in DOMAIN z
+                     /\ (count > 0 => \A i, j \in 1..n : i # j => g.a[i].a[1].b # g.a[j].a[1].b)
+                 IN IF ok THEN Res(C.S, RArr([i \in 1..n |-> ZItem(z, g.a[i].a[1].b, ws)]))
+                    ELSE Res(C.S, ZNoMatch)
+
+----------------------------------------------------------------------------
+\* ZRANGE key start stop [BYSCORE | BYLEX] [REV] [LIMIT offset count] [WITHSCORES]
+\* ZRANGESTORE destination source start stop [...]
+\* as-code: BYSCORE is the default (there are no rank ranges); start/stop are the inclusive lower /
+\* upper bound also under REV; option words may come in any order and unknown ones are ignored;
+\* BYLEX yields nothing unless all members have the same score (docs).
+\* Reference: the members inside the bounds, in (reversed) order, then windowed by LIMIT offset
+\* count (count < 0: no limit).  The implementation windows the *unfiltered* ordered set and takes
+\* count as an end index: deviation ZRangeLimit.
+
+ZRangeOpts(C, lo, hi, opts) ==
+    LET bylex == ZHasKw(opts, "BYLEX")
+        li    == ZFirstKw(opts, {"LIMIT"})
+    IN [bylex |-> bylex, rev |-> ZHasKw(opts, "REV"), ws |-> ZHasKw(opts, "WITHSCORES"),
+        skip  |-> ~bylex /\ (ZNumSkip(lo) \/ ZNumSkip(hi)),
+        err   |-> \/ ~bylex /\ (~ZNumOk(lo) \/ ~ZNumOk(hi))
+                  \/ li # 0 /\ (li + 2 > Len(opts) \/ ~ZIntOk(opts[li + 1]) \/ ZIntV(opts[li + 1]) < 0
+                                \/ ~ZIntOk(opts[li + 2])),
+        lim   |-> li # 0,
+        off   |-> IF li # 0 /\ li + 2 <= Len(opts) /\ ZIntOk(opts[li + 1]) THEN ZIntV(opts[li + 1]) ELSE 0,
+        cnt   |-> IF li # 0 /\ li + 2 <= Len(opts) /\ ZIntOk(opts[li + 2]) THEN ZIntV(opts[li + 2]) ELSE -1]
+
+\* [ok |-> FALSE] when the outcome is not determined (sort by a non-transitive comparison)
+ZRangeSel(C, z, lo, hi, o) ==
+    IF o.bylex /\ ~ZAllSame(z) THEN [ok |-> TRUE, s |-> <<>>]
+    ELSE IF o.bylex /\ ~ZLexSortable(C, DOMAIN z) THEN [ok |-> FALSE, s |-> <<>>]
+    ELSE LET asc == IF o.bylex THEN ZSortBy(DOMAIN z, LAMBDA x, y : ZLexLess(C, x, y)) ELSE ZAsc(z)
+             ord == IF o.rev THEN ZReverse(asc) ELSE asc
+             In(m) == IF o.bylex THEN ZLexIn(C, m, TokBytes(lo), TokBytes(hi))
+                      ELSE ZLe(ZNum(lo), z[m]) /\ ZLe(z[m], ZNum(hi))
+             n   == Len(ord)
+         IN IF o.lim /\ Dev(C, "ZRangeLimit")
+            THEN IF o.off > n THEN [ok |-> TRUE, s |-> <<>>]
+                 ELSE LET last == IF o.cnt < 0 THEN n - o.off ELSE o.cnt      \* zero-based, inclusive
+                      IN [ok |-> TRUE, s |-> SelectSeq(ZSlice(ord, o.off + 1, last + 1), In)]
+            ELSE LET f == SelectSeq(ord, In) IN
+                 [ok |-> TRUE,
+                  s  |-> IF ~o.lim THEN f
+                         ELSE IF o.cnt < 0 THEN ZSlice(f, o.off + 1, Len(f))
+                         ELSE ZSlice(f, o.off + 1, o.off + o.cnt)]
+
+XZRange(C, a) ==
+    IF Len(a) < 4 \/ Len(a) > 10 THEN Fail(C)
+    ELSE LET o == ZRangeOpts(C, a[3], a[4], SubSeq(a, 5, Len(a))) IN
+         IF o.skip THEN Skip(C)
+         ELSE IF o.err THEN Fail(C)
+         ELSE IF ZWrong(C, a[2].s) THEN Fail(C)
+         ELSE LET z == ZOf(C, a[2].s)   r == ZRangeSel(C, z, a[3], a[4], o) IN
+              IF ~r.ok THEN Skip(C) ELSE Res(C.S, ZListReply(z, r.s, o.ws))
+
+\* the destination always receives the result (a fresh sorted set, empty when nothing is selected
+\* or the source is absent) and keeps its deadline if it is live
+XZRangeStore(C, a) ==
+    IF Len(a) < 5 \/ Len(a) > 11 THEN Fail(C)
+    ELSE LET o == ZRangeOpts(C, a[4], a[5], SubSeq(a, 6, Len(a))) IN
+         IF o.skip THEN Skip(C)
+         ELSE IF o.err THEN Fail(C)
+         ELSE IF ZWrong(C, a[3].s) THEN Fail(C)
+         ELSE LET z == ZOf(C, a[3].s)   r == ZRangeSel(C, z, a[4], a[5], o) IN
+              IF ~r.ok THEN Skip(C)
+              ELSE Res(Write(C, a[2].s, VZSet(ZKeep(z, ZSeqSet(r.s)))), RInt(Len(r.s)))
+
+----------------------------------------------------------------------------
+\* ZDIFF key [key ...] [WITHSCORES]      ZDIFFSTORE destination key [key ...]
+\* members of the first sorted set that are in none of the others, with the first set's scores.
+\* as-code: operands are examined in order and an absent first key ends the evaluation (later
+\* operands are then not type-checked); tokens after WITHSCORES are ignored.
+
+RECURSIVE ZDiffFold(_, _, _)
+ZDiffFold(C, z, ks) ==          \* [err, z]
+    IF ks = <<>> THEN [err |-> FALSE, z |-> z]
+    ELSE IF ZWrong(C, ks[1].s) THEN [err |-> TRUE, z |-> z]
+    ELSE ZDiffFold(C, ZDrop(z, DOMAIN ZOf(C, ks[1].s)), Tail(ks))
+
+XZDiff(C, a) ==
+    IF Len(a) < 2 THEN Fail(C)
+    ELSE LET wi == ZFirstKw(a, {"WITHSCORES"})
+             ks == IF wi = 0 THEN Tail(a) ELSE SubSeq(a, 2, wi - 1)
+         IN IF wi = 2 THEN Fail(C)
+            ELSE IF ~Live(C, ks[1].s) THEN Res(C.S, RArr(<<>>))
+            ELSE IF ZWrong(C, ks[1].s) THEN Fail(C)
+            ELSE LET r == ZDiffFold(C, ZOf(C, ks[1].s), Tail(ks)) IN
+                 IF r.err THEN Fail(C) ELSE Res(C.S, ZBagReply(r.z, wi # 0))
+
+XZDiffStore(C, a) ==
+    IF Len(a) < 3 THEN Fail(C)
+    ELSE LET ks == SubSeq(a, 3, Len(a)) IN
+         IF ~Live(C, ks[1].s) THEN Res(Write(C, a[2].s, VZSet(ZEmpty)), RInt(0))
+         ELSE IF ZWrong(C, ks[1].s) THEN Fail(C)
+         ELSE LET r == ZDiffFold(C, ZOf(C, ks[1].s), Tail(ks)) IN
+              IF r.err THEN Fail(C) ELSE Res(Write(C, a[2].s, VZSet(r.z)), RInt(ZCardOf(r.z)))
+
+----------------------------------------------------------------------------
+\* ZUNION / ZINTER key [key ...] [WEIGHTS w ...] [AGGREGATE SUM|MIN|MAX] [WITHSCORES]
+\* ZUNIONSTORE / ZINTERSTORE destination key [key ...] [WEIGHTS ...] [AGGREGATE ...]
+\* as-code: the keys are the tokens before the first of the three option words; the options may
+\* come in any order; weights are doubles and run up to the next option word;
+\* anything after "AGGREGATE x" that is not an option word is ignored.
+
+ZAlgMods == {"WEIGHTS", "AGGREGATE", "WITHSCORES"}
+
+RECURSIVE ZWeightToks(_)
+ZWeightToks(toks) == IF toks = <<>> \/ KW(toks[1]) \in {"AGGREGATE", "WITHSCORES"} THEN <<>>
+                     ELSE <<toks[1]>> \o ZWeightToks(Tail(toks))
+
+\* toks: everything after the command name (and the destination)
+ZAlgParse(toks) ==
+    LET wi == ZFirstKw(toks, {"WEIGHTS"})
+        ai == ZFirstKw(toks, {"AGGREGATE"})
+        e  == ZFirstKw(toks, ZAlgMods)
+        ks == IF e = 0 THEN toks ELSE SubSeq(toks, 1, e - 1)
+        wt == IF wi = 0 THEN <<>> ELSE ZWeightToks(SubSeq(toks, wi + 1, Len(toks)))
+    IN [skip |-> \E i \in DOMAIN wt : ZNumSkip(wt[i]),
+        err  |-> \/ \E i \in DOMAIN wt : ~ZNumOk(wt[i])
+                 \/ ai # 0 /\ (ai = Len(toks) \/ ~(KW(toks[ai + 1]) \in {"SUM", "MIN", "MAX"}))
+                 \/ wi # 0 /\ Len(wt) # Len(ks),
+        keys |-> ks,
+        w    |-> [i \in 1..Len(ks) |-> IF wi # 0 /\ i <= Len(wt) /\ ZNumOk(wt[i]) THEN ZNum(wt[i]) ELSE ZFin(4)],
+        agg  |-> IF ai # 0 /\ ai < Len(toks) THEN KW(toks[ai + 1]) ELSE "SUM",
+        ws   |-> ZHasKw(toks, "WITHSCORES")]
+
+\* aggregate of a non-empty sequence of weighted scores
+RECURSIVE ZAggSeq(_, _)
+ZAggSeq(agg, xs) ==
+    IF Len(xs) = 1 THEN xs[1]
+    ELSE LET r == ZAggSeq(agg, Tail(xs))   x == xs[1] IN
+         IF x.inf = 2 \/ r.inf = 2 THEN ZNaN
+         ELSE CASE agg = "SUM" -> ZPlus(x, r)
+                [] agg = "MIN" -> IF ZLt(r, x) THEN r ELSE x
+                [] OTHER       -> IF ZLt(x, r) THEN r ELSE x
+
+\* zs: sequence of operand sorted sets, w: their weights; ms: the members of the result
+ZCombine(zs, w, agg, ms) ==
+    [m \in ms |-> LET idx == {i \in DOMAIN zs : m \in DOMAIN zs[i]}
+                      ord == ZSortBy(idx, LAMBDA i, j : i < j)
+                  IN ZAggSeq(agg, [j \in 1..Len(ord) |-> ZTimes(w[ord[j]], zs[ord[j]][m])])]
+
+ZHasNaN(z) == \E m \in DOMAIN z : z[m].inf = 2
+
+\* ZINTER: keys in order; an absent key makes the result empty at once, a key of another type
+\* before it is an error
+RECURSIVE ZInterScan(_, _)
+ZInterScan(C, ks) ==       \* "ok" | "empty" | "err"
+    IF ks = <<>> THEN "ok"
+    ELSE IF ~Live(C, ks[1].s) THEN "empty"
+    ELSE IF ZWrong(C, ks[1].s) THEN "err"
+    ELSE ZInterScan(C, Tail(ks))
+
+ZInterOf(C, p) ==
+    LET zs == [i \in 1..Len(p.keys) |-> ZOf(C, p.keys[i].s)]
+        ms == IF Len(p.keys) = 0 THEN {} ELSE {m \in DOMAIN zs[1] : \A i \in DOMAIN zs : m \in DOMAIN zs[i]}
+    IN ZCombine(zs, p.w, p.agg, ms)
+
+ZUnionOf(C, p) ==
+    LET zs == [i \in 1..Len(p.keys) |-> ZOf(C, p.keys[i].s)]
+        ms == UNION {DOMAIN zs[i] : i \in DOMAIN zs}
+    IN ZCombine(zs, p.w, p.agg, ms)
+
+XZInter(C, a) ==
+    IF Len(a) < 2 \/ KW(a[2]) \in ZAlgMods THEN Fail(C)
+    ELSE LET p == ZAlgParse(Tail(a)) IN
+         IF p.skip THEN Skip(C) ELSE IF p.err THEN Fail(C)
+         ELSE LET sc == ZInterScan(C, p.keys) IN
+              IF sc = "err" THEN Fail(C)
+              ELSE IF sc = "empty" THEN Res(C.S, RArr(<<>>))
+              ELSE LET z == ZInterOf(C, p) IN
+                   IF ZHasNaN(z) THEN Skip(C) ELSE Res(C.S, ZBagReply(z, p.ws))
+
+\* The destination may be one of the sources.  The implementation deletes every argument equal to
+\* the destination name before it parses the operands (a source equal to the destination is lost,
+\* and the weights then no longer line up): deviation ZStoreDropsDest.
+ZStoreToks(C, a) ==
+    LET all == SubSeq(a, 3, Len(a))
+        Other(t) == IF IsBytesT(a[2]) THEN TokBytes(t) # a[2].b          \* same bytes on the wire (a weight can be hit too)
+                    ELSE ~(IsSym(t) /\ t.s = a[2].s)
+    IN IF Dev(C, "ZStoreDropsDest") THEN SelectSeq(all, Other) ELSE all
+
+\* at least one key must come before the first option word
+XZInterStore(C, a) ==
+    IF Len(a) < 3 \/ KW(a[2]) \in ZAlgMods \/ KW(a[3]) \in ZAlgMods THEN Fail(C)
+    ELSE LET p == ZAlgParse(ZStoreToks(C, a)) IN
+         IF p.skip THEN Skip(C) ELSE IF p.err THEN Fail(C)
+         ELSE LET sc == ZInterScan(C, p.keys) IN
+              IF sc = "err" THEN Fail(C)
+              ELSE IF sc = "empty" THEN Res(Write(C, a[2].s, VZSet(ZEmpty)), RInt(0))
+              ELSE LET z == ZInterOf(C, p) IN
+                   IF ZHasNaN(z) THEN Skip(C) ELSE Res(Write(C, a[2].s, VZSet(z)), RInt(ZCardOf(z)))
+
+XZUnion(C, a) ==
+    IF Len(a) < 2 \/ KW(a[2]) \in ZAlgMods THEN Fail(C)
+    ELSE LET p == ZAlgParse(Tail(a)) IN
+         IF p.skip THEN Skip(C) ELSE IF p.err THEN Fail(C)
+         ELSE IF \E i \in DOMAIN p.keys : ZWrong(C, p.keys[i].s) THEN Fail(C)
+         ELSE LET z == ZUnionOf(C, p) IN
+              IF ZHasNaN(z) THEN Skip(C) ELSE Res(C.S, ZBagReply(z, p.ws))
+
+\* as-code: ZUNIONSTORE accepts an empty key list (the destination becomes the empty sorted set)
+XZUnionStore(C, a) ==
+    IF Len(a) < 3 \/ KW(a[2]) \in ZAlgMods THEN Fail(C)
+    ELSE LET p == ZAlgParse(ZStoreToks(C, a)) IN
+         IF p.skip THEN Skip(C) ELSE IF p.err THEN Fail(C)
+         ELSE IF \E i \in DOMAIN p.keys : ZWrong(C, p.keys[i].s) THEN Fail(C)
+         ELSE LET z == ZUnionOf(C, p) IN
+              IF ZHasNaN(z) THEN Skip(C) ELSE Res(Write(C, a[2].s, VZSet(z)), RInt(ZCardOf(z)))
+
+----------------------------------------------------------------------------
+ExecZSet(C, a, g) ==
+    LET op == a[1].s IN
+    CASE op = "ZADD"             -> XZAdd(C, a)
+      [] op = "ZCARD"            -> XZCard(C, a)
+      [] op = "ZCOUNT"           -> XZCount(C, a)
+      [] op = "ZDIFF"            -> XZDiff(C, a)
+      [] op = "ZDIFFSTORE"       -> XZDiffStore(C, a)
+      [] op = "ZINCRBY"          -> XZIncrBy(C, a)
+      [] op = "ZINTER"           -> XZInter(C, a)
+      [] op = "ZINTERSTORE"      -> XZInterStore(C, a)
+      [] op = "ZLEXCOUNT"        -> XZLexCount(C, a)
+      [] op = "ZMPOP"            -> XZMPop(C, a)
+      [] op = "ZMSCORE"          -> XZMScore(C, a)
+      [] op = "ZPOPMAX"          -> XZPop(C, a, TRUE)
+      [] op = "ZPOPMIN"          -> XZPop(C, a, FALSE)
+      [] op = "ZRANDMEMBER"      -> XZRandMember(C, a, g)
+      [] op = "ZRANGE"           -> XZRange(C, a)
+      [] op = "ZRANGESTORE"      -> XZRangeStore(C, a)
+      [] op = "ZRANK"            -> XZRank(C, a, FALSE)
+      [] op = "ZREVRANK"         -> XZRank(C, a, TRUE)
+      [] op = "ZREM"             -> XZRem(C, a)
+      [] op = "ZREMRANGEBYLEX"   -> XZRemRangeByLex(C, a)
+      [] op = "ZREMRANGEBYRANK"  -> XZRemRangeByRank(C, a)
+      [] op = "ZREMRANGEBYSCORE" -> XZRemRangeByScore(C, a)
+      [] op = "ZSCORE"           -> XZScore(C, a)
+      [] op = "ZUNION"           -> XZUnion(C, a)
+      [] op = "ZUNIONSTORE"      -> XZUnionStore(C, a)
+
+ZSetDevs(a) ==
+    LET op == a[1].s IN
+    CASE op = "ZADD"                            -> {"ZAddCount"}
+      [] op \in {"ZRANGE", "ZRANGESTORE"}       -> {"ZRangeLimit", "ZLexSubstr"}
+      [] op \in {"ZLEXCOUNT", "ZREMRANGEBYLEX"} -> {"ZLexSubstr"}
+      [] op = "ZMPOP"                           -> {"ZMPopSkipsWrongType"}
+      [] op \in {"ZINTERSTORE", "ZUNIONSTORE"}  -> {"ZStoreDropsDest"}
+      [] OTHER                                  -> {}
 
 =============================================================================
